@@ -75,7 +75,7 @@ def run(ctx):
             "empty_text": 0.05,
             "weights": dict(wallops=5, oper=5, umode=8, nick=8, kill=2, kick=6, cmode=14, who=5, whois=5, names=3,
                             invite=4, topic=3, end=4, quit=2)}
-    results, cover, shapes = common.e1_check(ctx, res, prof, n_quick=96, n_thorough=480, steps=150, steps_thorough=300,
+    results, cover, shapes = common.e1_check(ctx, res, prof, n_quick=96, n_thorough=1920, steps=150, steps_thorough=300,
                                              relevant=lambda t: False, nontrivial_rule="")
     res.extra["e1_hostile_steps"] = sum(r["steps"] for r in results)
     # contending registrations (the own-engine interleavings of C02): aborts and unexplained closes found there
